@@ -394,3 +394,9 @@ func vh_C19_L7_heartbeat_sample_is_elapsed_time() {
 // C19.L3c: data is retransmitted for as long as the association lives: T3 has no retry
 // limit and keeps running over ten consecutive expiries (same obligation as C02.L5).
 func vh_C19_L3_data_retransmitted_forever() { vh_C02_L5_t3_never_gives_up() }
+
+// C19.L3d: T3 keeps running while data is outstanding, whichever chunk carried the ack (= C02.L7).
+func vh_C19_L3_t3_runs_while_data_in_flight() { vh_C02_L7_t3_runs_while_data_in_flight() }
+
+// C19.L3e: handshake retries stay bounded-and-alive when stale handshake chunks arrive (= C04.L2b).
+func vh_C19_L3_stale_cookie_echo_keeps_retries() { vh_C04_L2_stale_cookie_echo_keeps_retries() }
